@@ -31,7 +31,11 @@ WORLDS = {
     "x23": ([("x", (2, 3), 0, False), ("y", (3,), 7, False)], CFG_2D),
     "x23F": ([("x", (2, 3), 0, False, "F"), ("y", (3,), 7, False)], CFG_2D),
 }
-BOUNDS = {"quick": [("x4", 3), ("x23", 2), ("x23F", 3)], "thorough": [("x4", 4), ("x23", 3), ("x23F", 3)]}
+# ops that consume one tensor several times (einsum / sequence / concatenate / matmul), then in-place updates of that tensor's family
+CFG_REP = dict(CFG_1D, views=("s1", "rev"), ops1=("einxx", "einxx_r", "mseq3", "catxx", "matxx"), set_idx=("s1", "advr3"), iops=("imul",), outs=(("multiply", 0),), outs_const=False)
+WORLDS["x4rep"] = ([("x", (4,), 0, False), ("y", (3,), 5, False)], CFG_REP)
+WORLDS["x23rep"] = ([("x", (2, 3), 0, False), ("y", (3,), 7, False)], dict(CFG_REP, set_idx=("i0", "advr"), ops1=("einxx", "einxx_r", "mseq3", "catxx")))
+BOUNDS = {"quick": [("x4", 3), ("x23", 2), ("x23F", 3), ("x4rep", 3), ("x23rep", 2)], "thorough": [("x4", 4), ("x23", 3), ("x23F", 3), ("x4rep", 4), ("x23rep", 3)]}
 
 
 def grad_check(init, h, seed, impl, model_names):
